@@ -18,6 +18,7 @@ import (
 
 	"github.com/cockroachdb/errors"
 	"github.com/cockroachdb/errors/errbase"
+	"github.com/cockroachdb/errors/join"
 	"github.com/cockroachdb/errors/errorspb"
 	"github.com/cockroachdb/logtags"
 	"github.com/cockroachdb/redact"
@@ -124,6 +125,10 @@ var Shapes = []*Shape{
 		e = errors.WithTelemetry(e, "key\xff", "key.ok")
 		e = errors.WithSafeDetails(e, "d\xfe %s", errors.Safe("v\xff"))
 		return errors.WithTelemetry(hop(e), "outer\xff")
+	}},
+	{"sparecap", "join.Join(fmt.Errorf(%w %w %w), GoNew): a multi-cause node whose cause slice has spare capacity, nested as a non-last branch", func() error {
+		m1 := fmt.Errorf("m1 %w %w %w", goerrors.New("a"), goerrors.New("b"), goerrors.New("c"))
+		return join.Join(m1, goerrors.New("last"))
 	}},
 	{"gleaf", "Wrap(&driver.GLeaf[string]): a user-defined generic leaf type", func() error {
 		return errors.Wrap(&GLeaf[string]{Msg: "generic"}, "ctx")
